@@ -776,6 +776,21 @@ def run_actor_property(chk, module, theorems, monitor_pids=None, controllers=Non
     return info, res
 
 
+def dispatch_facts(chk, facts):
+    """the settings this property speaks about reach the controller through the dispatcher: the facts of the regenerated
+    dispatcher table it relies on (topic -> controller method, accepted range) are theorems of Properties/C14.lean"""
+    code = "import sys; sys.path.insert(0, %r); import os; os.chdir(%r); sys.path.insert(0, %r)\nfrom translate import dispatch_table as T\nt, ch = T.regenerate()\nprint('ENTRIES', len(t['entries']))" % (VERIF, REPO, REPO)
+    try:
+        p = subprocess.run(["/venv/bin/python", "-c", code], capture_output=True, text=True, timeout=900, env={**os.environ, "POUPOOL_REPO": REPO})
+        ok = p.returncode == 0 and "ENTRIES" in p.stdout
+        chk.obligation("T3: dispatcher table extracted from the running Dispatcher and validated by probing", ok, (p.stdout + p.stderr)[-400:])
+    except Exception as e:  # noqa: BLE001
+        chk.obligation("T3: dispatcher table extracted from the running Dispatcher and validated by probing", False, repr(e)[:300])
+        ok = False
+    if ok:
+        lean.check_theorems(chk, "Poupool.Properties.C14", ["Poupool.C14." + f if not f.startswith("Poupool.") else f for f in facts])
+
+
 def responsiveness(chk, actors):
     """the timing / polling clauses of this property presuppose that its controllers never block for ever: the ranked
     ask-graph theorem of C09 on the regenerated graph, and any cyclic wait the explored runs hit that involves `actors`"""
